@@ -129,6 +129,9 @@ def run_impl(case):
             ss = st.hex()
         except struct.error:
             st, ss = None, "struct-error"
+        except Exception as ex:          # anything else the real sterile() raises is an observation, not a harness crash
+            st, ss = None, f"other:{type(ex).__name__}"
+            obs["sterile_error"] = ss
         obs["sterile_frame"] = st
         obs["otf"] = [(a, b, c.value) for a, b, c in p.on_the_fly]
         obs["counters"] = dict(p.counters)
